@@ -5,6 +5,7 @@ package rr
 // Contracts for the verifier in /verif (comment-only file; no declarations).
 
 //@ func runoffCoefficient(rainfall, coeff, runoff)
+//@   canary [C10.canary-coefficient] implies(rainfall.len > 0, runoff.at(0) == rainfall.at(0))
 //@   kernel
 //@   states none
 //@   noalias
@@ -44,6 +45,7 @@ package rr
 // ---- Surm (C10) ----
 
 //@ func surm(rainfall, pet, initialStore, initialGW, initialTotalStore, bfac, coeff, dseep, fcFrac, fimp, rfac, smax, sq, thres, runoffTS, quickflowTS, baseflowTS, storeTS) returns (rS, rGW, rTotal)
+//@   canary [C10.canary-surm] rS == initialStore
 //@   kernel
 //@   states initialStore, initialGW, initialTotalStore
 //@   noalias
@@ -81,6 +83,7 @@ package rr
 //@ # axiom [A-MATH.pow-monotone] forallr(a, forallr(b, forallr(p, implies(0 <= a && a <= b && p > 0, pow(a,p) <= pow(b,p)))))
 
 //@ func gr4j(rainfall, pet, s0, r0, n1, n2, q1State, q9State, x1, x2, x3, x4, runoff) returns (rS, rR, rN1, rN2, rQ1, rQ9)
+//@   canary [C15.canary-gr4j] rS == s0
 //@   kernel
 //@   states s0, r0, n1, n2, q1State, q9State
 //@   noalias
